@@ -479,11 +479,13 @@ fn comp_matches(c: &Comp, leaf: &Value) -> bool {
             if l == s {
                 return true;
             }
-            // ISO yyyy-mm-dd
+            // ISO yyyy-mm-dd; century as the library documents its window: 00-49 -> 20yy, 50-99 -> 19yy
             let b = l.as_bytes();
+            let century = if s.as_bytes()[0] <= b'4' { "20" } else { "19" };
             l.len() == 10
                 && b[4] == b'-'
                 && b[7] == b'-'
+                && l[0..2] == *century
                 && l[2..4] == s[0..2]
                 && l[5..7] == s[2..4]
                 && l[8..10] == s[4..6]
